@@ -34,6 +34,7 @@ def run(ctx, rep):
         crate = ctx.crate(cfg)
         check_rec_vm(crate, rep, cfg, "R-REC.vm")
         check_rec_value(crate, rep, cfg)
+        check_ref(crate, rep, cfg)
 
 
 def check_rec_vm(crate, rep, cfg, rule):
@@ -94,3 +95,339 @@ def check_rec_value(crate, rep, cfg):
                 "dropping a value nested N deep recurses N deep; a template can build N without bound")
     else:
         rep.ok("R-REC.value", key, "tera/src/value/mod.rs", "Value is not recursively dropped")
+
+
+# ----------------------------------------------------------------------------------------------------------------
+# C07.REF — the reference chain
+
+from engine import TRANSPARENT_CALLS, field_accesses, field_index
+
+REF_TRANSPARENT = set(TRANSPARENT_CALLS) | {
+    "std::iter::Iterator::next", "std::string::String::as_str", "std::borrow::Cow::<'_, B>::as_ref", "utils::Spanned::<T>::into_parts",
+    "std::collections::HashMap::<K, V, S, A>::keys", "std::collections::HashMap::<K, V, S, A>::iter",
+}
+
+# instruction variant -> Compiler/Template field that records its name
+EMIT_RECORD = {
+    "ApplyFilter": "filter_calls",
+    "RunTest": "test_calls",
+    "CallFunction": "function_calls",
+    "Include": "include_calls",
+    "RenderInlineComponent": "component_calls",
+    "RenderBodyComponent": "component_calls",
+}
+EMIT_FLOORS = {"ApplyFilter": 3, "RunTest": 1, "CallFunction": 1, "Include": 1, "RenderInlineComponent": 1, "RenderBodyComponent": 1}
+FIVE = ["filter_calls", "test_calls", "function_calls", "include_calls", "component_calls"]
+
+
+def strip_via(leaf):
+    """leaf without transparent-call markers and borrow noise: (kind, root, real projections)"""
+    k, d, projs = leaf
+    real = tuple(p for p in projs if not p.startswith("via:") and p not in ("&", "deref"))
+    if k == "call":
+        d = (d[0], d[2])
+    return (k, d, real)
+
+
+def check_ref(crate, rep, cfg):
+    check_ref_a(crate, rep, cfg)
+    check_ref_b(crate, rep, cfg)
+    check_ref_c(crate, rep, cfg)
+    check_ref_d(crate, rep, cfg)
+    check_ref_e(crate, rep, cfg)
+    check_ref_f(crate, rep, cfg)
+
+
+def check_ref_a(crate, rep, cfg):
+    counts = {v: 0 for v in EMIT_RECORD}
+    for b in crate.bodies.values():
+        if b.file.endswith("vm/interpreter.rs"):
+            continue
+        if b.path.endswith("Chunk::optimize"):
+            continue
+        sites = [(bb, idx, s) for bb, idx, s in find_aggs(b, "parsing::instructions::Instruction") if s["rv"]["variant"] in EMIT_RECORD]
+        if not sites:
+            continue
+        if b.j.get("from_exp") and rrec.derive_generated(crate, b.path):
+            continue
+        rep.analysed(b)
+        tr = Tracer(b, transparent=REF_TRANSPARENT)
+        entries = []
+        for bb, t in find_calls(b, ["std::collections::HashMap::<K, V, S, A>::entry", "std::collections::HashMap::<K, V, S>::entry"]):
+            fld = rrec.field_of_arg(tr, t["args"][0])
+            key_leaves = {strip_via(l) for l in tr.operand(t["args"][1])}
+            entries.append((bb, fld, key_leaves))
+        ordn = {}
+        for bb, idx, s in sites:
+            v = s["rv"]["variant"]
+            counts[v] += 1
+            want = "." + EMIT_RECORD[v]
+            name_leaves = {strip_via(l) for l in tr.operand(s["rv"]["ops"][0])}
+            ok = False
+            for (ebb, fld, key_leaves) in entries:
+                if fld == want and key_leaves and key_leaves == name_leaves and (b.dominates(ebb, bb) or b.dominates(bb, ebb)):
+                    ok = True
+            n = ordn.get(v, 0)
+            ordn[v] = n + 1
+            key = "C07.REF.a:%s:%s#%d" % (b.path, v, n)
+            what = ("emission of Instruction::%s is paired (same control region, same name origin) with a `%s.entry(name)` record, so "
+                    "add-time validation sees this reference" % (v, EMIT_RECORD[v]))
+            if ok:
+                rep.ok("C07.REF.a", key, b.where(bb, idx), what)
+            else:
+                rep.bad("C07.REF.a", key, b.where(bb, idx), what + " — VIOLATED: no matching record; an unknown name here would only fail "
+                        "(panic on registry index) at render time. name origin: %s" % sorted(str(x) for x in name_leaves)[:3])
+    for v, fl in EMIT_FLOORS.items():
+        rep.floor("C07.REF.a", "emission sites of Instruction::%s [%s]" % (v, cfg), counts[v], fl)
+
+
+def check_ref_b(crate, rep, cfg):
+    tn = crate.one("template::Template::new")
+    bodies = crate.with_closures(tn)
+    rep.analysed(*bodies)
+    # Template aggregate: each of the five fields comes from the body compiler's map of the same name
+    aggs = [(b, bb, idx, s) for b in bodies for bb, idx, s in find_aggs(b, "template::Template", "Template")]
+    if len(aggs) != 1:
+        rep.anchor_missing("C07.REF.b", "exactly one construction of Template in Template::new (found %d)" % len(aggs))
+        return
+    b, bb, idx, s = aggs[0]
+    tr = Tracer(b, transparent=REF_TRANSPARENT)
+    rv = s["rv"]
+    for f in FIVE:
+        op = rv["ops"][rv["fields"].index(f)]
+        leaves = tr.operand(op)
+        ok = leaves and all(l.kind == "call" and l.detail[0].endswith("Compiler::new") and ("." + f) in l.projs for l in leaves)
+        key = "C07.REF.b:Template::new:field=%s" % f
+        what = "Template.%s is the body compiler's %s map" % (f, f)
+        (rep.ok if ok else rep.bad)("C07.REF.b", key, b.where(bb, idx), what if ok else what + " — VIOLATED: origin %s" % sorted(leaf_str(l) for l in leaves)[:3])
+    # component compilers: each of their five maps is drained into the template-level map of the same name
+    for f in FIVE:
+        found = False
+        for cb in bodies:
+            if cb.kind != "closure":
+                continue
+            ctr = Tracer(cb, transparent=REF_TRANSPARENT)
+            up = {u["n"]: pl_str(u["pl"]) for u in cb.j.get("upvars", [])}
+            if f not in up:
+                continue
+            for ebb, t in find_calls(cb, ["std::collections::HashMap::<K, V, S, A>::entry", "std::collections::HashMap::<K, V, S>::entry"]):
+                recv = ctr.operand(t["args"][0])
+                # receiver is the captured template-level map `f`
+                if not any(l.kind == "param" and "".join(l.projs).replace("&", "").replace("deref", "").startswith(up[f].split("deref", 1)[-1].replace("deref", "")) for l in recv):
+                    continue
+                keyl = ctr.operand(t["args"][1])
+                if keyl and all(l.kind == "call" and l.detail[0].endswith("Compiler::new") and ("." + f) in l.projs for l in keyl):
+                    found = True
+        key = "C07.REF.b:Template::new:components-merge=%s" % f
+        what = "references recorded while compiling component bodies (%s) are merged into the template-level map that is validated" % f
+        if found:
+            rep.ok("C07.REF.b", key, tn.where(0), what)
+        else:
+            rep.bad("C07.REF.b", key, tn.where(0), what + " — VIOLATED: no `%s.entry(name)` fed from the component compiler's %s; unknown names "
+                    "inside component definitions would escape add-time validation" % (f, f))
+
+
+VALIDATE_AGAINST = {
+    "filter_calls": ("registry", "filters"),
+    "test_calls": ("registry", "tests"),
+    "function_calls": ("registry", "functions"),
+    "component_calls": ("predicate", None),
+    "include_calls": ("resolve", None),
+}
+
+
+def check_ref_c(crate, rep, cfg):
+    v = crate.one("tera::Tera::validate_template_references")
+    rep.analysed(v)
+    tr = Tracer(v, transparent=REF_TRANSPARENT)
+
+    def from_field(op, f):
+        leaves = tr.operand(op)
+        return bool(leaves) and all(l.kind == "param" and l.detail == 2 and ("." + f) in l.projs for l in leaves if l.kind != "cycle")
+
+    for f, (how, reg) in VALIDATE_AGAINST.items():
+        ok = False
+        where = v.where(0)
+        if how == "registry":
+            for bb, t in find_calls(v, ["std::collections::HashMap::<K, V, S, A>::contains_key", "std::collections::HashMap::<K, V, S>::contains_key"]):
+                if rrec.field_of_arg(tr, t["args"][0]) == "." + reg and from_field(t["args"][1], f):
+                    ok, where = True, v.where(bb)
+        elif how == "predicate":
+            for bb, t in v.calls():
+                if t["f"].get("trait") in ("std::ops::Fn", "std::ops::FnMut", "std::ops::FnOnce") or "Fn::call" in callee_def(t):
+                    recv = tr.operand(t["args"][0])
+                    if any(l.kind == "param" and l.detail == 3 for l in recv) and len(t["args"]) > 1:
+                        # args tuple: (name,)
+                        a1 = t["args"][1]
+                        if a1["k"] in ("copy", "move"):
+                            leaves = tr.place(a1["pl"], [".0"])
+                            if leaves and all(l.kind == "param" and l.detail == 2 and ("." + f) in l.projs for l in leaves if l.kind != "cycle"):
+                                ok, where = True, v.where(bb)
+        elif how == "resolve":
+            for bb, t in find_calls(v, ["tera::Tera::resolve_template_name"]):
+                if from_field(t["args"][1], f):
+                    ok, where = True, v.where(bb)
+        key = "C07.REF.c:validate:%s" % f
+        what = "validate_template_references tests every key of Template.%s against %s" % (
+            f, "Tera.%s" % reg if reg else ("the known-component predicate" if how == "predicate" else "resolve_template_name"))
+        (rep.ok if ok else rep.bad)("C07.REF.c", key, where, what if ok else what + " — VIOLATED: no such test found")
+    # the error branch of each test pushes into the returned vector: the result (_0) is the local that receives the pushes
+    pushes = list(find_calls(v, ["std::vec::Vec::<T, A>::push"]))
+    rep.floor("C07.REF.c", "error pushes in validate_template_references [%s]" % cfg, len(pushes), 5)
+    # the only literal exemption is the function name `super`
+    consts = set()
+    for bb, idx, s in v.stmts():
+        for op in iter_operands(s):
+            if op["k"] == "const" and "s" in op and "str" in op.get("ty", "") and op["s"] and not op["s"].startswith("Unknown") and "`" not in op["s"]:
+                consts.add(op["s"])
+    key = "C07.REF.c:validate:exemptions"
+    allowed = {"super"}
+    extra = {c for c in consts if c.strip() and c not in allowed and len(c) < 40 and c.isidentifier()}
+    if extra:
+        rep.bad("C07.REF.c", key, v.where(0), "names exempted from validation by literal comparison: %s (only `super` is reviewed)" % sorted(extra))
+    else:
+        rep.ok("C07.REF.c", key, v.where(0), "the only identifier literal compared against in validation is `super` (handled by the VM itself)")
+
+
+def check_ref_d(crate, rep, cfg):
+    fin = crate.one("tera::Tera::finalize_templates")
+    rep.analysed(fin)
+    tr = Tracer(fin, transparent=REF_TRANSPARENT)
+    ef = EdgeFacts(fin, crate)
+    vcalls = list(find_calls(fin, ["tera::Tera::validate_template_references"]))
+    key = "C07.REF.d:finalize:validate-in-loop"
+    ok = False
+    for bb, t in vcalls:
+        leaves = tr.operand(t["args"][1])
+        in_loop = any(bb in l for l in fin.loops())
+        from_templates = bool(leaves) and all((l.kind == "param" and l.detail == 1 and ".templates" in l.projs) for l in leaves if l.kind != "cycle")
+        if in_loop and from_templates:
+            ok = True
+    what = "finalize_templates validates every template of self.templates (call inside the loop over the map)"
+    (rep.ok if ok else rep.bad)("C07.REF.d", key, fin.where(vcalls[0][0]) if vcalls else fin.where(0), what if ok else what + " — VIOLATED")
+    # commit start is dominated by the `errors.is_empty()` true edge
+    commit = [bb for bb, t in find_calls(fin, ["std::collections::HashMap::<K, V, S, A>::iter_mut", "std::collections::HashMap::<K, V, S>::iter_mut"])
+              if rrec.field_of_arg(tr, t["args"][0]) == ".templates"]
+    key = "C07.REF.d:finalize:errors-block-commit"
+    ok = False
+    if commit:
+        cb = commit[0]
+        for sb in sorted(fin.reachable):
+            if fin.term(sb)["k"] != "switch":
+                continue
+            for tgt, fl in ef.facts_for_switch(sb).items():
+                for f in fl:
+                    if f[0] == "call" and f[1].endswith("::is_empty") and f[3] is True and fin.dominates(tgt, cb) and tgt != sb:
+                        # the tested vector receives the validation reports
+                        ok = True
+    what = "the commit loop of finalize_templates is dominated by the true edge of `errors.is_empty()` (any validation report aborts before commit)"
+    (rep.ok if ok else rep.bad)("C07.REF.d", key, fin.where(commit[0]) if commit else fin.where(0), what if ok else what + " — VIOLATED")
+    # render_str_to
+    rs = crate.one("tera::Tera::render_str_to")
+    rep.analysed(rs)
+    ef2 = EdgeFacts(rs, crate)
+    vm_new = [bb for bb, t in find_calls(rs, ["vm::interpreter::VirtualMachine::<'tera>::new"])]
+    vcalls2 = list(find_calls(rs, ["tera::Tera::validate_template_references"]))
+    ok = False
+    if vm_new and vcalls2:
+        for sb in sorted(rs.reachable):
+            if rs.term(sb)["k"] != "switch":
+                continue
+            for tgt, fl in ef2.facts_for_switch(sb).items():
+                for f in fl:
+                    if f[0] == "call" and f[1].endswith("::is_empty") and f[3] is True and rs.dominates(tgt, vm_new[0]) and tgt != sb \
+                            and rs.dominates(vcalls2[0][0], sb):
+                        ok = True
+    key = "C07.REF.d:render_str_to:validate-before-vm"
+    what = "render_str_to validates the one-off template and constructs the VM only on the `errors.is_empty()` true edge"
+    (rep.ok if ok else rep.bad)("C07.REF.d", key, rs.where(vm_new[0]) if vm_new else rs.where(0), what if ok else what + " — VIOLATED")
+
+
+LOOKUP_KEY_FROM = {
+    "filters": {"as:ApplyFilter"},
+    "tests": {"as:RunTest"},
+    "functions": {"as:CallFunction"},
+    "components": {"as:RenderInlineComponent", "as:RenderBodyComponent"},
+    "templates": {".name"},
+}
+
+
+def check_ref_e(crate, rep, cfg):
+    n = 0
+    for b in crate.in_files("vm/interpreter.rs"):
+        tr = Tracer(b, transparent=REF_TRANSPARENT | {"std::string::String::as_str"})
+        ordn = {}
+        for bb, t in find_calls(b, ["std::ops::Index::index"]):
+            fld = rrec.field_of_arg(tr, t["args"][0])
+            if fld is None or fld[1:] not in LOOKUP_KEY_FROM:
+                continue
+            f = fld[1:]
+            # only the Tera/Template registries (HashMap receivers)
+            if "HashMap" not in t["atys"][0]:
+                continue
+            n += 1
+            rep.analysed(b)
+            leaves = tr.operand(t["args"][1])
+            leaves = resolve_upvars(crate, b, leaves, REF_TRANSPARENT | {"std::string::String::as_str"})
+            ok = bool(leaves) and all(any(p in LOOKUP_KEY_FROM[f] for p in l.projs) for l in leaves if l.kind != "cycle")
+            k = ordn.get(f, 0)
+            ordn[f] = k + 1
+            key = "C07.REF.e:%s:index:%s#%d" % (b.path, f, k)
+            what = ("panicking lookup `%s[key]` takes its key from %s (a name recorded and validated at add time)" % (
+                f, " / ".join(sorted(LOOKUP_KEY_FROM[f]))))
+            if ok:
+                rep.ok("C07.REF.e", key, b.where(bb), what)
+            else:
+                rep.bad("C07.REF.e", key, b.where(bb), what + " — VIOLATED: key origin %s" % sorted(leaf_str(l) for l in leaves)[:3])
+    rep.floor("C07.REF.e", "panicking registry lookups in the VM [%s]" % cfg, n, 5)
+
+
+GROW_ONLY_OK = {"insert", "contains_key", "get", "index", "iter", "len", "clone", "keys", "values", "into_iter", "is_empty", "get_key_value", "fmt"}
+
+
+def check_ref_f(crate, rep, cfg):
+    n = 0
+    for f in ("filters", "tests", "functions"):
+        for a in field_accesses(crate, "tera::Tera", f):
+            b = a["body"]
+            n += 1
+            key = "C07.REF.f:%s:%s:%s" % (f, b.path, a["kind"] + (":" + a["callee"].rsplit("::", 1)[-1] if a.get("callee") else ""))
+            what = "Tera.%s is only inserted into / read (registries only grow, so names validated at add time stay resolvable)" % f
+            ok = True
+            if a["kind"] == "assign":
+                ok = False
+            elif a["kind"] == "agg-init":
+                ok = b.path.endswith("::default") or b.path.endswith("::clone")
+            elif a["kind"] == "call":
+                meth = a["callee"].rsplit("::", 1)[-1]
+                ok = meth in GROW_ONLY_OK
+            if ok:
+                rep.ok("C07.REF.f", key, b.where(a["bb"], a["idx"]), what)
+            else:
+                rep.bad("C07.REF.f", key, b.where(a["bb"], a["idx"]), what + " — VIOLATED: %s %s" % (a["kind"], a.get("callee") or ""))
+    rep.floor("C07.REF.f", "accesses to Tera.{filters,tests,functions} [%s]" % cfg, n, 20)
+
+
+def resolve_upvars(crate, body, leaves, transparent):
+    """a leaf that is a captured variable of a closure (param 1, field N) is traced on in the parent function"""
+    if body.kind != "closure" or not body.parent or body.parent not in crate.bodies:
+        return leaves
+    parent = crate.bodies[body.parent]
+    out = set()
+    for l in leaves:
+        if l.kind == "param" and l.detail == 1:
+            real = [p for p in l.projs if p not in ("&", "deref")]
+            if real and real[0].startswith(".") and real[0][1:].isdigit():
+                n = int(real[0][1:])
+                found = False
+                for bb, idx, s in parent.stmts():
+                    if idx != "t" and s["k"] == "assign" and s["rv"]["k"] == "agg" and s["rv"].get("ak") == "closure" and s["rv"].get("def") == body.path:
+                        if n < len(s["rv"]["ops"]):
+                            ptr = Tracer(parent, transparent=transparent)
+                            sub = ptr.operand(s["rv"]["ops"][n], real[1:])
+                            out |= resolve_upvars(crate, parent, sub, transparent)
+                            found = True
+                if found:
+                    continue
+        out.add(l)
+    return out
